@@ -63,12 +63,14 @@ package files
 //@   props C17
 //@   ensures r1 == nil ==> r0 != nil && fresh(r0) && r0.mapped() && (size >= 0 ==> r0.size == size) && r0.size % 4096 == 0
 //@   ensures r1 != nil ==> r0 == nil
+// opening a store never cuts bytes off the file (the file is only ever extended to the mapped size)
+//@   ensures r1 == nil ==> r0.f != nil && !r0.f.cut && r0.f.fsz >= r0.size
 //@   ensures size == 0 || (size > 0 && size % 4096 != 0) ==> r1 != nil
 // Grow: a request that is not larger than the mapping, or not a positive multiple of the block size, is refused and
 // changes nothing; on success the mapping has exactly the new size
 //@ func (mmf *MMFile) Grow(newSize int64) (err error)
 //@   props C17
 //@   requires mmf != nil && mmf.f != nil && mmf.size > 0
-//@   modifies mmf.mf, mmf.size, mmf.f
+//@   modifies mmf.mf, mmf.size, mmf.f, mmf.f.fsz, mmf.f.cut
 //@   ensures r0 == nil ==> mmf.mapped() && mmf.size == newSize && newSize > old(mmf.size) && newSize % 4096 == 0
 //@   ensures newSize <= old(mmf.size) || newSize % 4096 != 0 ==> r0 != nil && mmf.size == old(mmf.size) && mmf.mf == old(mmf.mf) && mmf.f == old(mmf.f)
